@@ -384,6 +384,16 @@ def _run_unit(args):
     check = importlib.import_module(check_name)
     unit = check.units(tier, seed)[idx]
     stats = Stats()
+    # harness safety: no worker may eat the machine (a changed tree that allocates without bound ends in MemoryError)
+    try:
+        import resource
+
+        soft, hard = resource.getrlimit(resource.RLIMIT_AS)
+        cap = int(os.environ.get("VERIF_WORKER_MEM", 6 << 30))
+        if soft == resource.RLIM_INFINITY or soft > cap:
+            resource.setrlimit(resource.RLIMIT_AS, (cap, hard))
+    except (ValueError, OSError):
+        pass
     known, _ = load_known()
     known_ids = known_ids_for(known, check.ID)
     try:
